@@ -50,7 +50,17 @@ func c10Bases(seed int64, thorough bool) []*e2eCase {
 	inside := []e2eNode{{Rel: "tree/keep.txt", Size: 120}, {Rel: "tree/docs/notes.txt", Size: 80}, {Rel: "keepme.txt", Size: 100}}
 	mk(true, false, 4, true, true, []int64{6000, 4000}, inside)
 	mk(false, true, 3, true, true, []int64{6000}, inside)
+	// names that extend each other as strings (report, report.old; data, data.tar.gz): stop-and-delete
+	// must remove every one of them
+	mk(true, false, 4, false, false, []int64{300, 20000, 500}, other)
+	for i, n := range []string{"report", "report.old", "report.old.2"} {
+		res[len(res)-1].Nodes[i].Rel = n
+	}
 	if thorough {
+		mk(false, true, 3, false, false, []int64{300, 20000}, other)
+		for i, n := range []string{"data", "data.tar.gz"} {
+			res[len(res)-1].Nodes[i].Rel = n
+		}
 		mk(true, false, 2, false, false, []int64{9000}, nil)
 		mk(false, false, 3, false, false, []int64{9000, 10}, nil)
 		mk(true, false, 1, false, false, []int64{2500}, nil)
